@@ -13,8 +13,9 @@ META = {
                   'reconstructs (folding the emitted update and error_update messages over the initial value-or-error gives the cached '
                   'value-or-error, after every prefix), order_preserved, never_phantom, recovery_announced(+_trace), change_announced; '
                   'and for all schedules of any number of threads over the small-step system cut at the lock / store / notify primitives: '
-                  'one_thread_inside, interleaving_atomic (every connection\'s per-parameter log is the message list of a sequential run '
-                  'of the completed calls), quiescent_is_sequential, conc_ok.  The models are tied to modulebase.announceUpdate, the '
+                  'one_thread_inside, sub_lock_nested, interleaving_atomic (every connection\'s per-parameter log is the message list of a '
+                  'sequential run of the completed calls), hist_is_interleaving (those calls are a shuffle of the thread programs), '
+                  'quiescent_is_sequential, conc_ok.  The models are tied to modulebase.announceUpdate, the '
                   'read/write wrappers, Parameter.__set__/finish and dispatcher.make_update/broadcast_event by a correspondence run '
                   '(sequential histories + labelled scheduled runs) and the Lean monitors judge every implementation trace.',
     'level_note': 'Trusted: Lean kernel + axioms propext/Quot.sound; hypothesis ExportExact (values Python\'s != does not tell apart '
